@@ -16,12 +16,35 @@ import tempfile
 import jinja2
 
 from vinegar.data_source import DataSource
-from vinegar.http.server import HttpRequestInfo
+from vinegar.http.server import HttpRequestHandler, HttpRequestInfo
 from vinegar.request_handler import file as F
 from vinegar.tftp.protocol import ErrorCode
-from vinegar.tftp.server import TftpError
+from vinegar.tftp.server import TftpError, TftpRequestHandler
 
-logging.disable(logging.CRITICAL)
+
+
+class _FormatOnly(logging.Handler):
+    """formats every record (so that a broken log call shows as the exception it raises) and drops it"""
+
+    def emit(self, record):
+        self.format(record)
+
+    def handleError(self, record):       # the default prints and continues; a broken log call must not be silent
+        raise
+
+
+_vlog = logging.getLogger("vinegar")
+_vlog.addHandler(_FormatOnly())
+_vlog.propagate = False
+logging.raiseExceptions = True
+
+
+def set_log_level(name):
+    """the logging level is a dimension of the cases (DEBUG / INFO / WARNING)"""
+    _vlog.setLevel(getattr(logging, name))
+
+
+set_log_level("DEBUG")
 
 DUMP_TEMPLATE = "{{ dump() }}"
 PH_DEFAULT = "..."
@@ -229,6 +252,185 @@ def run_handle(h, tftp, uri, ctx):
         return ERROR, None
     except (Exception, HarnessBaseException):    # anything that would reach the server's internal-error path
         return ERROR, None
+
+
+# ----------------------------------------------------------------------------- the real servers in front of a handler
+class _Recording:
+    """stands in the server's handler list in front of the real handler: forwards every call and records what the
+    server passed in and what came back"""
+
+    def __init__(self):
+        self.inner = None
+        self.seen = None          # (string passed to prepare_context, context, can_handle result)
+
+    def prepare_context(self, uri):
+        ctx = self.inner.prepare_context(uri)
+        self.seen = [uri, ctx, None]
+        return ctx
+
+    def can_handle(self, uri, context):
+        r = self.inner.can_handle(uri, context)
+        if self.seen is not None:
+            self.seen[2] = bool(r)
+        return r
+
+
+class _HttpFront(_Recording, HttpRequestHandler):
+    def handle(self, request_info, body, context):
+        return self.inner.handle(request_info, body, context)
+
+
+class _TftpFront(_Recording, TftpRequestHandler):
+    def handle(self, filename, client_address, server_address, context):
+        return self.inner.handle(filename, client_address, server_address, context)
+
+
+class _HttpFallback(HttpRequestHandler):
+    """answers whatever the handler in front declined"""
+
+    def prepare_context(self, uri):
+        return None
+
+    def can_handle(self, uri, context):
+        return True
+
+    def handle(self, request_info, body, context):
+        import io as _io
+        from http import HTTPStatus as _S
+        return _S.IM_A_TEAPOT, None, _io.BytesIO(b"declined")
+
+
+class _TftpFallback(TftpRequestHandler):
+    def prepare_context(self, filename):
+        return None
+
+    def can_handle(self, filename, context):
+        return True
+
+    def handle(self, filename, client_address, server_address, context):
+        import io as _io
+        return _io.BytesIO(b"\x00declined\x00")
+
+
+DECLINED = 4
+_servers = {}
+_prev_excepthook = None
+
+
+def _quiet_excepthook(args):
+    # a BaseException-derived exception of the recording data source ends the server's request thread (that is the
+    # expected behaviour); do not print its traceback
+    if isinstance(args.exc_value, HarnessBaseException):
+        return
+    _prev_excepthook(args)
+
+
+def _http_server():
+    global _prev_excepthook
+    if _prev_excepthook is None:
+        import threading as _th
+        _prev_excepthook = _th.excepthook
+        _th.excepthook = _quiet_excepthook
+    if "http" not in _servers:
+        from vinegar.http.server import HttpServer
+        front = _HttpFront()
+        srv = HttpServer([front, _HttpFallback()], "::1", 0)
+        srv.start()
+        atexit.register(srv.stop)
+        _servers["http"] = (srv, front, srv._server.socket.getsockname()[1])
+    return _servers["http"]
+
+
+def _tftp_server():
+    if "tftp" not in _servers:
+        from vinegar.tftp.server import TftpServer
+        front = _TftpFront()
+        srv = TftpServer([front, _TftpFallback()], "::1", 0, default_timeout=2.0, max_retries=1)
+        srv.start()
+        atexit.register(srv.stop)
+        _servers["tftp"] = (srv, front, srv._socket.getsockname()[1])
+    return _servers["tftp"]
+
+
+def servable(tftp, uri):
+    """can this request string travel through the real server unchanged?"""
+    if tftp:
+        return all(0 < ord(c) < 128 for c in uri) and len(uri) < 400
+    return (uri.startswith("/") and all(ord(c) > 32 and ord(c) != 127 and ord(c) < 256 for c in uri)
+            and len(uri) < 8000)
+
+
+def wire_to_handler(tftp, wire):
+    """what the server in front is specified to hand to the handler for a request target / file name on the wire:
+    the raw string, except that Python's http.server collapses a run of leading slashes into one (CPython gh-87389,
+    part of BaseHTTPRequestHandler.parse_request); the TFTP server passes the file name as it is"""
+    if not tftp and wire.startswith("//"):
+        return "/" + wire.lstrip("/")
+    return wire
+
+
+def via_server(h, tftp, uri):
+    """one request through the real HttpServer / TftpServer with handler h behind it (raw request target / file
+    name on the wire) -> (string the server handed to the handler, context, can_handle, class, body)"""
+    import socket as _socket
+    if tftp:
+        _srv, front, port = _tftp_server()
+        front.inner, front.seen = h, None
+        s = _socket.socket(_socket.AF_INET6, _socket.SOCK_DGRAM)
+        s.settimeout(3.0)
+        try:
+            s.sendto(b"\x00\x01" + uri.encode("ascii") + b"\x00octet\x00", ("::1", port))
+            cls, body = ERROR, b""
+            data = b""
+            for _ in range(64):
+                try:
+                    pkt, peer = s.recvfrom(65536)
+                except _socket.timeout:
+                    cls = ERROR
+                    break
+                if pkt[:2] == b"\x00\x03":
+                    data += pkt[4:]
+                    s.sendto(b"\x00\x04" + pkt[2:4], peer)
+                    if len(pkt) - 4 < 512:
+                        cls, body = CONTENT, data
+                        break
+                elif pkt[:2] == b"\x00\x05":
+                    code = int.from_bytes(pkt[2:4], "big")
+                    cls = NOTFOUND if code == 1 else FORBIDDEN if code == 2 else ERROR
+                    break
+                else:
+                    break
+        finally:
+            s.close()
+        if cls == CONTENT and body == b"\x00declined\x00":
+            cls, body = DECLINED, b""
+    else:
+        _srv, front, port = _http_server()
+        front.inner, front.seen = h, None
+        s = _socket.create_connection(("::1", port), timeout=5.0)
+        try:
+            s.sendall(b"GET " + uri.encode("latin-1") + b" HTTP/1.0\r\nHost: x\r\n\r\n")
+            buf = b""
+            while True:
+                chunk = s.recv(65536)
+                if not chunk:
+                    break
+                buf += chunk
+        except _socket.timeout:
+            buf = b""
+        finally:
+            s.close()
+        head, _, body = buf.partition(b"\r\n\r\n")
+        try:
+            status = int(head.split(b" ", 2)[1])
+        except Exception:
+            status = 0
+        cls = {200: CONTENT, 404: NOTFOUND, 403: FORBIDDEN, 418: DECLINED}.get(status, ERROR)
+        if cls != CONTENT:
+            body = b""
+    seen = front.seen or [None, None, False]
+    front.inner = None
+    return seen[0], seen[1], bool(seen[2]), cls, body
 
 
 def canon_ctx(ctx):
